@@ -383,7 +383,7 @@ def run(pid, tier, seed, replay):
 
     # J3: verdict (property definitions on the observations), then conformance
     findings, states = judge(corpus.lines, invariants=INVARIANTS)
-    violations, unconfirmed = [], 0
+    violations, unconfirmed, hung = [], 0, []
     for f in findings:
         meta = corpus.meta_of(f)
         if f.invariant in TIMING:
@@ -395,9 +395,12 @@ def run(pid, tier, seed, replay):
             f = again[0]
         if f.invariant == "CloseReturns":
             # the closer itself is stuck but no publisher / other subscriber was: outside the statement (DESIGN 5.1)
-            raise vlib.Inconclusive("a Close() call does not return although publishers and other subscribers are "
-                                    "not blocked: %s %s" % (describe(f), json.dumps(meta)))
+            hung.append("%s %s" % (describe(f), json.dumps(meta)))
+            continue
         violations.append(to_violation(pid, f, meta))
+    if hung and not violations:
+        raise vlib.Inconclusive("a Close() call does not return although no publisher or other subscriber was "
+                                "found blocked: " + hung[0])
     drift, _ = judge(corpus.lines, conform=True)
     for f in drift:
         vlib.log("DRIFT C15 %s %s" % (describe(f), json.dumps(corpus.meta_of(f))[:300]))
